@@ -38,6 +38,9 @@ const preludeCore = `
 (declare-fun str_of_rune (Int) Str)
 (declare-fun utf8_rune (Str Int) Int)
 (declare-fun utf8_width (Str Int) Int)
+(declare-fun tquo (Int Int) Int)
+(declare-fun trem (Int Int) Int)
+(define-fun fdiv ((a Int) (b Int)) Int (ite (and (< a 0) (not (= (trem a b) 0))) (- (tquo a b) 1) (tquo a b)))
 `
 
 // string axioms, included when the VC mentions the symbol in the first column
@@ -310,7 +313,12 @@ func (e *Engine) discharge(outDir string, timeoutMs int, allSolvers bool, worker
 				}
 				file = fmt.Sprintf("%s.%d.smt2", file, j.i)
 				os.WriteFile(file, []byte(text), 0o644)
-				e.solveOne(j.vc, file, solvers, timeoutMs, allSolvers)
+				if j.ob.Class == "canary" && !allSolvers {
+					// vacuity canaries are expected NOT to be provable: give them a short budget
+					e.solveOne(j.vc, file, solverList(1200), 1200, true)
+				} else {
+					e.solveOne(j.vc, file, solvers, timeoutMs, allSolvers)
+				}
 				cmu.Lock()
 				cache[text] = j.vc
 				cmu.Unlock()
@@ -329,6 +337,10 @@ func (e *Engine) solveOne(vc *VC, file string, solvers []SolverCfg, timeoutMs in
 	// stage 1: z3-new alone (fast path)
 	r, out, ms := runSolver(ctx, solvers[0], file, timeoutMs)
 	vc.Ms += ms
+	if r == "sat" && all && strings.Contains(vc.Goal, "false") && vc.Goal == "false" {
+		vc.Result, vc.Solver, vc.Output, vc.Model = r, solvers[0].Name, out, out
+		return
+	}
 	if (r == "unsat" || r == "sat") && !all {
 		vc.Result, vc.Solver, vc.Output = r, solvers[0].Name, out
 		if r == "sat" {
@@ -383,7 +395,7 @@ func (e *Engine) solveOne(vc *VC, file string, solvers []SolverCfg, timeoutMs in
 		vc.Solver = strings.Join(parts, ",")
 		vc.Output = outs[solvers[0].Name]
 		// candidate counterexample from the quantifier-free relaxation (validated only by replay)
-		if strings.Contains(vc.Goal, "(forall ") {
+		if strings.Contains(vc.Goal, "(forall ") || vc.Goal == "false" {
 			return
 		}
 		rf := strings.TrimSuffix(file, ".smt2") + ".relaxed.smt2"
